@@ -134,7 +134,7 @@ prop('C12', 'proof',
      'Lean 4 kernel-checked certificate (96 x 4096 positions) + exhaustive enumeration against an independent solver', '§12.4 C12')
 
 prop('C13', 'proof',
-     'the evaluator (score.cpp + endgame.cpp, ~600 lines) transcribed into Lean with its explicit per-colour choices; THE GENERAL (NON-ENDGAME) BRANCH OF THE EVALUATION IS PROVED COLOUR-SYMMETRIC ON EVERY Spec.wf POSITION (Props/C13General.lean, C13_general_branch: evalWith of the colour-mirrored position = evalWith of the position — pawn score, score_pieces_for_side for both colours with every per-piece term, the king terms, the setup scratch state incl. outposts and king blockers, tapering and side to move; C13_no_endgame: hence PositionScorer::score on every Spec.wf position that no specialised endgame claims — the mirror is then claimed by none either, C13_endgame_dispatch_mirror: egApplies for strong side s on the position = egApplies for the other side on the mirror, all 17 classes; through C11 for the slider lookups and kernel tables for every constant mask). THE KPK CLASS IS PROVED TOO (C13_kpk: on every Spec.wf position that KPK claims, for either strong side, the score of the mirror equals the score — the single pawn square, the bitbase normalisation, the value and the dispatch; this is the class of the repaired double-normalisation defect). AND SIX MORE CLASSES (C13_simple_endgame: KRNKR, KRBKR, KQKR, KNNK, KRKB, KXK when the class is the first to claim the position and claims one strong side only — decidable facts about the position; generic dispatch lemma endgameScore_class_mirror). AND FOUR MORE (C13_single_piece_endgame: KRKN, KNBK, KQKP, KRKP — kings plus the square of a piece that occurs once, read off the material signature). OPEN: the values of the remaining 6 specialised endgame evaluators (KPsK, KNNKP, KBPsK, KBPsKB, KQKRPs, KmmKm) (and that at most one strong side is claimed per class), decided on the implementation by the direct mirror test. Further mirror-law theorems in Props/C13.lean and Props/C13Mirror.lean (THE PAWN EVALUATION IS PROVED COLOUR-SYMMETRIC on every Spec.wf position — C13_pawn_score_mirror: score_pawns_for_side of either colour on the mirrored board equals that of the other colour on the board, so the cached pawn score changes sign; the term of one pawn reads ten features of the two pawn bitboards against constant masks, and the masks of (colour, square) and (other colour, flipped square) are flips of each other for all 2 x 48 pairs, kernel-evaluated — and so is score_king_safety incl. the castling-rights branch, C13_king_safety_mirror; the mirrored board is a permutation of the recoloured board, so piece counts, the material signature, the enough-material guard and the game-phase weight are mirror-invariant on every Spec.wf position: C13_guard_phase_wf; see DESIGN §12.4 C13 for the part proved); '
+     'the evaluator (score.cpp + endgame.cpp, ~600 lines) transcribed into Lean with its explicit per-colour choices; THE GENERAL (NON-ENDGAME) BRANCH OF THE EVALUATION IS PROVED COLOUR-SYMMETRIC ON EVERY Spec.wf POSITION (Props/C13General.lean, C13_general_branch: evalWith of the colour-mirrored position = evalWith of the position — pawn score, score_pieces_for_side for both colours with every per-piece term, the king terms, the setup scratch state incl. outposts and king blockers, tapering and side to move; C13_no_endgame: hence PositionScorer::score on every Spec.wf position that no specialised endgame claims — the mirror is then claimed by none either, C13_endgame_dispatch_mirror: egApplies for strong side s on the position = egApplies for the other side on the mirror, all 17 classes; through C11 for the slider lookups and kernel tables for every constant mask). THE KPK CLASS IS PROVED TOO (C13_kpk: on every Spec.wf position that KPK claims, for either strong side, the score of the mirror equals the score — the single pawn square, the bitbase normalisation, the value and the dispatch; this is the class of the repaired double-normalisation defect). AND SIX MORE CLASSES (C13_simple_endgame: KRNKR, KRBKR, KQKR, KNNK, KRKB, KXK when the class is the first to claim the position and claims one strong side only — decidable facts about the position; generic dispatch lemma endgameScore_class_mirror). AND FOUR MORE (C13_single_piece_endgame: KRKN, KNBK, KQKP, KRKP — kings plus the square of a piece that occurs once, read off the material signature). AND TWO MORE (C13_pair_endgame: KNNKP, KmmKm — a pair of like pieces in either scan order). OPEN: the values of the remaining 4 specialised endgame evaluators (KPsK, KBPsK, KBPsKB, KQKRPs: most-advanced-pawn scans over several files) (and that at most one strong side is claimed per class), decided on the implementation by the direct mirror test. Further mirror-law theorems in Props/C13.lean and Props/C13Mirror.lean (THE PAWN EVALUATION IS PROVED COLOUR-SYMMETRIC on every Spec.wf position — C13_pawn_score_mirror: score_pawns_for_side of either colour on the mirrored board equals that of the other colour on the board, so the cached pawn score changes sign; the term of one pawn reads ten features of the two pawn bitboards against constant masks, and the masks of (colour, square) and (other colour, flipped square) are flips of each other for all 2 x 48 pairs, kernel-evaluated — and so is score_king_safety incl. the castling-rights branch, C13_king_safety_mirror; the mirrored board is a permutation of the recoloured board, so piece counts, the material signature, the enough-material guard and the game-phase weight are mirror-invariant on every Spec.wf position: C13_guard_phase_wf; see DESIGN §12.4 C13 for the part proved); '
      'correspondence: model vs C++ on every evaluation of corpus/lab/game positions and random placements of every specialised endgame class, and the symmetry property evaluated directly on the C++ '
      'for every position and its mirror', 'Spec.wf positions with sufficient material; evaluation constants of value.h and the endgame.cpp tables are regenerated from the build on every run (Gen/EvalConsts.lean); ' + TIE,
      'Lean 4 theorems over a transcribed evaluator + direct mirror test on the implementation', '§6 C13')
